@@ -191,8 +191,8 @@ def run(ctx):
     bad_lines, want = corrupt(lines, why_of)
     if len(want) < 5:
         raise vlib.Infra("binding guard: only %d corrupted records could be formed" % len(want))
-    got = set(judge_lines(ctx, bad_lines, "corrupted", verdict=False))
-    if got != want:
+    got = judge_lines(ctx, bad_lines, "corrupted", verdict=False)
+    if set(got) != want:
         raise vlib.Infra("binding guard: the judge rejected records %s of the corrupted log, expected %s" % (sorted(got), sorted(want)))
     ctx.extra["binding_guard"] = {"corrupted_records": len(want), "all_rejected": True, "untouched_copy_accepted": True}
     ctx.traces_validated += len(orders)
